@@ -72,6 +72,8 @@ impl G {
             let mut guard = 0;
             while matches!(t.as_ref(), TypeInner::Var(_)) && guard < 10 { t = self.typ(2); guard += 1; }
             if matches!(t.as_ref(), TypeInner::Var(_)) { t = ty(TypeInner::Nat); }
+            // now and then a definition that is optional-like, so that a *reference* can stand where an upgrade adds an optional field
+            if self.rng.gen_bool(0.2) { t = match self.rng.gen_range(0..4) { 0 => ty(TypeInner::Null), 1 => ty(TypeInner::Reserved), _ => ty(TypeInner::Opt(self.typ(1))) }; }
             env.0.insert(format!("D{i}"), t);
         }
         env
@@ -150,7 +152,8 @@ impl G {
                 if self.rng.gen_bool(0.4) {
                     let extra = [4u32, 6, 99, 1000].choose(&mut self.rng).cloned().unwrap();
                     if !out.iter().any(|f| f.id.get_id() == extra) {
-                        let t = if self.rng.gen_bool(0.7) { ty(Opt(self.typ(1))) } else { self.typ(1) };
+                        let mut t = if self.rng.gen_bool(0.7) { ty(Opt(self.typ(1))) } else { self.typ(1) };
+                        if self.rng.gen_bool(0.3) { if let Some(r) = self.optional_ref(env) { t = r; } }
                         out.push(Field { id: Rc::new(Label::Id(extra)), ty: t });
                     }
                 }
@@ -190,6 +193,11 @@ impl G {
 pub fn args_of(vs: std::vec::Vec<IDLValue>) -> IDLArgs { IDLArgs { args: vs } }
 
 impl G {
+    /// a reference to a definition whose body is opt / null / reserved, if the environment has one
+    fn optional_ref(&mut self, env: &TypeEnv) -> Option<Type> {
+        let names: std::vec::Vec<String> = env.0.iter().filter(|(_, b)| matches!(env.trace_type(b).map(|x| x.as_ref().clone()), Ok(TypeInner::Opt(_)) | Ok(TypeInner::Null) | Ok(TypeInner::Reserved))).map(|(n, _)| n.clone()).collect();
+        names.choose(&mut self.rng).map(|n| ty(TypeInner::Var(n.clone())))
+    }
     /// a supertype of `t` (one or more upgrade steps of the kinds the spec allows)
     pub fn supertype(&mut self, env: &TypeEnv, t: &Type, depth: usize) -> Type {
         use TypeInner::*;
@@ -209,7 +217,8 @@ impl G {
                 if self.rng.gen_bool(0.4) {
                     let extra = [4u32, 6, 99, 1000].choose(&mut self.rng).cloned().unwrap();
                     if !fs.iter().any(|f| f.id.get_id() == extra) {
-                        let t = match self.rng.gen_range(0..3) { 0 => ty(Opt(self.typ(1))), 1 => ty(Null), _ => ty(Reserved) };
+                        let mut t = match self.rng.gen_range(0..3) { 0 => ty(Opt(self.typ(1))), 1 => ty(Null), _ => ty(Reserved) };
+                        if self.rng.gen_bool(0.4) { if let Some(r) = self.optional_ref(env) { t = r; } }
                         out.push(Field { id: Rc::new(Label::Id(extra)), ty: t });
                     }
                 }
